@@ -5,22 +5,28 @@ Property theorems about the executable model in Model/YannyLayout.lean (layouts,
 selection, raw mode) on top of C01's reader model (Model/Yanny{Tok,Row,File,Dom}.lean).
 Helper lemmas: Lemmas/YannyLayout.lean (and C01's Lemmas/Yanny{Tok,Row,Pair}.lean).
 
-Full-strength target (stated, executed on every generated case by the harness, proved in parts):
+File-level statement (extension round: PROVED, theorem `parseFile_layout` at the end of this file):
 
   theorem parseFile_layout (d : Doc F) (lay : Layout) (text : Str) :
-      docOK2 d = true → layoutOK io d lay = true → renders io d lay = some text →
-      parseFile2 io text = .ok (canon d) ∧ parseFile2 io (univNl text) = .ok (canon d)
+      docOK2 d = true → layoutOK2 io d lay = true → renders io d lay = some text →
+      parseFile2 io text = .ok (canon d)
 
-What is proved below: the token level for every quoting style and separator, trailing-comment
-stripping for every line, the selection of a table's typedef by its own name (post-fix rule) with
-the refutation of the pre-fix rule, raw mode = values before the numpy cast, and that the
-parameterised reader instantiated with C01's rule is C01's reader.  Not proved: continuation
-joining and typedef extraction on laid-out text, the line loop over laid-out lines, char[] sizing
-and the record-array stage on the result (all executed by the correspondence on every case).
+with its pieces as named theorems: `joinCont_layout` (continuation joining), `typedef_block_layout`,
+`front_layout` (typedef extraction on laid-out blocks, symbol table, residual text), `typeSearch_layout`,
+`columnsOf_layout`, `typing_layout` (column typing from a laid-out struct text, incl. `char name[]`:
+`char_unsized_layout`), `lineStep_layout_row`, `lineStep_layout_pair` (the line step on a whole
+laid-out line), `loop_layout` (the loop over the lines of several tables in any interleaving),
+`finishTables_layout` (record arrays).  `layoutOK2` = `layoutOK` + the documented assumption that
+inside a struct definition every declaration after the first is preceded by a newline (`declNlOK`;
+without it `int a[2]; char t[8];` on one line is mis-typed by the greedy `[...]` of `type()`).
+Not proved: the same statement for the universal-newline text `univNl text` (text-mode `open()`);
+it is executed on every generated case by the harness (stream lay-m, `txt`).
+Floats under C01's hypothesis H1.
 -/
 import PydlVerif.Lemmas.YannyLayout
+import PydlVerif.Lemmas.YannyLayTop
 namespace PydlVerif.C02
-open PydlVerif.Yanny
+open PydlVerif.Yanny PydlVerif.YannyRT
 
 variable {F : Type}
 
@@ -175,5 +181,216 @@ theorem raw_same_values (sel : Sel) (io : FloatIO F) (text : Str) (p : Parsed F)
 /-- the reader with the selection rule as a parameter, at C01's rule, is C01's `parseFile` -/
 theorem parseFileS_selectDef (io : FloatIO F) (text : Str) :
     parseFileS selectDef io text = parseFile io text := parseFileS_old io text
+
+/-! ## file level (extension round) -/
+
+section FileLevel
+open PydlVerif.YannyLay PydlVerif.YannyLayScan PydlVerif.YannyLayBlock
+
+/-- **piece 1** continuation joining: `re.sub(r'\\\s*\n', ' ', text)` turns the file as written
+(separators possibly split by backslash-newline) into the file with every separator in its joined
+form; nothing else in the file is touched (no other backslash is followed by blanks up to a line end) -/
+theorem joinCont_layout (io : FloatIO F) (d : Doc F) (lay : Layout) (text : Str)
+    (hd : docOK2 d = true) (hl : layoutOK io d lay = true) (hr : renders io d lay = some text) :
+    ∃ ltext, rendersLogical io d lay = some ltext ∧ joinCont text = ltext :=
+  PydlVerif.YannyLayCont.joinCont_renders io d lay text hd hl hr
+
+/-- **piece 2a** one typedef block in any layout (`typedef` g1 `struct|enum` g2 `{` body `}` g3 NAME g4 `;`
+with arbitrary white space g1..g4, g1 non-empty): the expression for its own keyword matches it as a
+whole (found with its body and name, cut out entirely), the expression for the other keyword matches
+nowhere inside it -/
+theorem typedef_block_layout (K kw g1 g2 body g3 name g4 B : Str) (hK : isKw K) (hkw : isKw kw) (hne : K ≠ kw)
+    (hg1 : g1 ≠ [] ∧ ∀ c ∈ g1, isSpace c = true) (hg2 : ∀ c ∈ g2, isSpace c = true)
+    (hg3 : ∀ c ∈ g3, isSpace c = true) (hg4 : ∀ c ∈ g4, isSpace c = true)
+    (hb : body ≠ [] ∧ '}' ∉ body ∧ '{' ∉ body) (hn : wordy name) :
+    tdFind K 0 (blockL K g1 g2 body g3 name g4 ++ B) = ⟨blockL K g1 g2 body g3 name g4, body, name⟩ :: tdFind K 0 B ∧
+    tdRemove K 0 (blockL K g1 g2 body g3 name g4 ++ B) = tdRemove K 0 B ∧
+    tdFind kw 0 (blockL K g1 g2 body g3 name g4 ++ B) = tdFind kw 0 B ∧
+    tdRemove kw 0 (blockL K g1 g2 body g3 name g4 ++ B) = blockL K g1 g2 body g3 name g4 ++ tdRemove kw 0 B :=
+  ⟨tdFind_lay_same K g1 g2 body g3 name g4 B hK hg1 hg2 hg3 hg4 ⟨hb.1, hb.2.1⟩ hn,
+   tdRemove_lay_same K g1 g2 body g3 name g4 B hK hg1 hg2 hg3 hg4 ⟨hb.1, hb.2.1⟩ hn,
+   tdFind_lay_other K kw g1 g2 body g3 name g4 B hK hkw hne hg1 hg2 hg3 hg4 hb.2.2 hn,
+   tdRemove_lay_other K kw g1 g2 body g3 name g4 B hK hkw hne hg1 hg2 hg3 hg4 hb.2.2 hn⟩
+
+/-- **piece 2b** `re.search(r'(\S+)\s+VAR([\[<].*[\]>]|);', text)` on a struct definition in any layout
+(white space and `# …` comments before every declaration and before the closing brace, `[n]` or `<n>`,
+`[]`, any blanks between type and name; every declaration after the first preceded by a newline)
+finds the declaration of `VAR`: its type word and its array suffix as written - whatever the other
+column names, the struct name and the comments contain -/
+theorem typeSearch_layout (ms : List Mem) (closePre g1 g2 g3 name g4 : Str)
+    (hms : ∀ m ∈ ms, MemOK m) (hnd : (ms.map (·.N)).Nodup) (hnl : ∀ m ∈ ms.tail, '\n' ∈ m.pre)
+    (hcp : tdWsOK false closePre = true)
+    (hg1 : g1 ≠ [] ∧ ∀ c ∈ g1, wsChar c = true) (hg2 : ∀ c ∈ g2, wsChar c = true)
+    (hg3 : ∀ c ∈ g3, wsChar c = true) (hg4 : ∀ c ∈ g4, wsChar c = true)
+    (hname : wordy name) (m : Mem) (hm : m ∈ ms) :
+    typeSearch m.N (structL g1 g2 (bodyL ms closePre) g3 name g4) = some (m.T, m.arr) :=
+  typeSearch_lay ms closePre g1 g2 g3 name g4 hms hnd hnl hcp hg1 hg2 hg3 hg4 hname m hm
+
+/-- `re.findall(r'\S+\s+\S+;', body)` + `stripArr` on the same body gives the column names in order -/
+theorem columnsOf_layout (ms : List Mem) (closePre : Str) (hms : ∀ m ∈ ms, MemOK m)
+    (hcp : tdWsOK false closePre = true) : columnsOf (bodyL ms closePre) = ms.map (·.N) :=
+  columnsOf_lay ms closePre hms hcp
+
+/-- **piece 2c / 5a** typing of a table's columns from its definition in any layout: the column specs
+the row reader needs and the canonical record-array columns; a column written `char name[]` gets the
+width of its longest value (`unsizedOK`: the document's declared width IS that length) -/
+theorem typing_layout (enums : List EnumDecl) (he : ∀ e ∈ enums, enumOK e = true) (t : TableD F) (l : StructLay)
+    (ht : tableOK2 enums t = true) (hl : structLayOK enums t l = true) (hnl : declNlOK l.cols = true)
+    (sts : List Str) (hsel : selectDef sts (upper t.name) = some (structBlk enums t l))
+    (cache : List (Str × List Str))
+    (hcache : ∀ e ∈ enums, lookupLast (upper e.tyName) cache = some e.labels)
+    (hnum : ∀ w ∈ ["short".toList, "int".toList, "long".toList, "float".toList, "double".toList],
+      lookupLast w cache = none) :
+    colSpecs sts (upper t.name) (t.cols.map (·.name)) = .ok (t.cols.map specOfCol) ∧
+    ∀ (k : Nat) (c : Col), t.cols[k]? = some c →
+      rcolOf sts cache (upper t.name) c.name (t.rows.filterMap (fun r => r[k]?)) = .ok (rcolCanon enums c) :=
+  typing_lay enums he t l ht hl hnl sts hsel cache hcache hnum
+
+/-- `char name[]` (type text `char[]` / `char[n][]`): the column is a string column, an array iff
+`n` is given, and its width is the longest value present in the column -/
+theorem char_unsized_layout (c : Col) (data : List (Cell F)) :
+    baseType (typUnsized c) = "char".toList ∧ isArrayT (typUnsized c) = decide (c.alen > 0) ∧
+    (c.alen > 0 → arrayLength (typUnsized c) = .ok c.alen) ∧
+    charLength (typUnsized c) data = if data.isEmpty then .ok 1 else .ok ((data.map cellMaxLen).foldl max 0) :=
+  ⟨baseType_unsized c, isArrayT_unsized c, arrayLength_unsized c, charLength_unsized c data⟩
+
+/-- **piece 2, file level** the front half of `_parse` on a file in any layout -/
+theorem front_layout (io : FloatIO F) (h1 : H1 io) (d : Doc F) (lay : Layout) (text : Str)
+    (hd : docOK2 d = true) (hl : layoutOK2 io d lay = true) (hr : renders io d lay = some text) :
+    ∃ infos, slotInfos io d (initRSt d) lay.slots = some infos ∧ (∀ i ∈ infos, InfoOK io (laySpecs d) i) ∧
+      front text = ⟨layStructs d lay, layEnums d lay,
+        d.tables.map (fun t => (upper t.name, t.cols.map (·.name))),
+        joinChunks lay.finalEol (residChunks infos)⟩ :=
+  front_lay io h1 d lay text hd hl hr
+
+/-- **piece 3** the line step on a whole data line in any layout: leading blanks, the struct name in any
+letter case, the cells in any per-line layout, trailing blanks, an optional trailing comment, an
+optional CR - the row is appended to its table -/
+theorem lineStep_layout_row (io : FloatIO F) (h1 : H1 io) (specs : List (Str × Except String (List ColSpec)))
+    (st : LoopSt F) (sch : List ColSpec) (r : List (Cell F)) (lay : RowLay) (b cr : Str)
+    (hlead : ∀ c ∈ lay.lead, isBlank c = true) (htrail : ∀ c ∈ lay.trail, isBlank c = true)
+    (hname : wordOK lay.name = true) (hcom : commentOK lay.comment = true)
+    (hcells : cellsLayOK io r lay.cells = true) (hb : renderCells Sep.logical io r lay.cells = some b)
+    (hdb : dbFree (lay.name ++ b) = true) (hk : rowKinds sch r = true)
+    (hs : lookupSpec specs (upper lay.name) = some (.ok sch)) (hcr : cr = [] ∨ cr = ['\r']) :
+    lineStep io specs st (lay.lead ++ lay.name ++ b ++ lay.trail ++ commentText lay.comment ++ cr) =
+      .ok { st with rows := addRow st.rows (upper lay.name) r } :=
+  PydlVerif.YannyLayLine.lineStep_row_lay io h1 specs st sch r lay b cr hlead htrail hname hcom hcells hb hdb hk hs hcr
+
+/-- **piece 3** the line step on a whole keyword line in any layout -/
+theorem lineStep_layout_pair (io : FloatIO F) (specs : List (Str × Except String (List ColSpec)))
+    (st : LoopSt F) (k v : Str) (lay : PairLay) (cr : Str)
+    (hlead : ∀ c ∈ lay.lead, isBlank c = true) (htrail : ∀ c ∈ lay.trail, isBlank c = true)
+    (hcom : commentOK lay.comment = true)
+    (hne : k ≠ []) (hk : ∀ c ∈ k, isSpace c = false ∧ c ≠ '#')
+    (hh1 : k.head? ≠ some '"') (hh2 : k.head? ≠ some '{')
+    (hv : '#' ∉ v) (hvn : '\n' ∉ v) (hvs : strip v = v)
+    (hsep : if v.isEmpty then (∀ c ∈ lay.sep.a, isBlank c = true) ∧ lay.sep.cont = none else lay.sep.ok = true)
+    (hdb : dbFree (k ++ lay.sep.logical ++ v) = true)
+    (hs : lookupSpec specs (upper k) = none) (hcr : cr = [] ∨ cr = ['\r']) :
+    lineStep io specs st (lay.lead ++ k ++ lay.sep.logical ++ v ++ lay.trail ++ commentText lay.comment ++ cr) =
+      .ok { st with pairs := setPair st.pairs k v } :=
+  PydlVerif.YannyLayLine.lineStep_pair_lay io specs st k v lay cr hlead htrail hcom hne hk hh1 hh2 hv hvn hvs hsep hdb hs hcr
+
+/-- **piece 4** the loop over the lines of a file in any layout: comment / blank lines and the rests of
+definition lines are skipped, keyword pairs are recorded in file order, and the rows of each table
+arrive in that table's order, whatever the interleaving of the tables' lines -/
+theorem loop_layout (io : FloatIO F) (d : Doc F) (lay : Layout) (hd : docOK2 d = true)
+    (hl : layoutOK2 io d lay = true) (infos : List (ChunkInfo F))
+    (hsi : slotInfos io d (initRSt d) lay.slots = some infos) (hio : ∀ i ∈ infos, InfoOK io (laySpecs d) i) :
+    lineLoop io (laySpecs d) ⟨[], d.tables.map (fun t => (upper t.name, []))⟩
+      (splitNl (joinChunks lay.finalEol (residChunks infos))) =
+      .ok ⟨d.hdr, d.tables.map (fun t => (upper t.name, t.rows))⟩ :=
+  loop_lay io d lay hd hl infos hsi hio
+
+/-- **piece 5** record arrays: with the column data that is actually passed to `char_length` -/
+theorem finishTables_layout (st : List Str) (cache : List (Str × List Str)) (enums : List EnumDecl)
+    (all : List (TableD F)) (hnd : nodup (all.map (fun t => upper t.name)) = true)
+    (ts : List (TableD F)) (hsub : ∀ t ∈ ts, t ∈ all)
+    (hok : ∀ t ∈ ts, t.cols ≠ [] ∧
+      (∀ (k : Nat) (c : Col), t.cols[k]? = some c →
+        rcolOf st cache (upper t.name) c.name (t.rows.filterMap (fun r => r[k]?)) = .ok (rcolCanon enums c)) ∧
+      ∀ r ∈ t.rows, cellsOK enums t.cols r = true) :
+    finishTables st cache (all.map (fun t => (upper t.name, t.rows)))
+      (ts.map (fun t => (upper t.name, t.cols.map (·.name)))) =
+      .ok (ts.map (fun t => ⟨upper t.name, t.cols.map (rcolCanon enums), t.rows⟩)) :=
+  finishTables_written' st cache enums all hnd ts hsub hok
+
+/-- the reader of the tree after the D16/D17 fix is C01's reader (C01's `selectDef` follows the fix) -/
+theorem parseFile2_eq (io : FloatIO F) (text : Str) : parseFile2 io text = parseFile io text := by
+  have hsel : selectDef2 = selectDef := rfl
+  unfold parseFile2
+  rw [hsel]
+  exact parseFileS_old io text
+
+/-- **parseFile_layout** - the meaning of a file does not depend on its surface syntax: every document
+of the domain `docOK2` (several tables, enum and struct definitions, keyword pairs; struct names
+arbitrary distinct identifiers), written in ANY layout of the domain `layoutOK2` - comment lines and
+trailing comments, blank lines, leading blanks, blank/tab runs, CRLF, backslash continuation inside
+any separator, bare / "quoted" / {braced} tokens, `[n]` / `<n>` / `[]`, any letter case of the struct
+name, white space and comments inside definitions, definitions anywhere, rows of different tables
+interleaved - reads back as the document's canonical form: tables, column types, row order per table,
+cells, pairs in order -/
+theorem parseFile_layout (io : FloatIO F) (h1 : H1 io) (d : Doc F) (lay : Layout) (text : Str)
+    (hd : docOK2 d = true) (hl : layoutOK2 io d lay = true) (hr : renders io d lay = some text) :
+    parseFile2 io text = .ok (canon d) := by
+  rw [parseFile2_eq]
+  exact parseFile_lay io h1 d lay text hd hl hr
+
+end FileLevel
+
+/-! ### the domain of `parseFile_layout` is inhabited
+
+Two tables and an enum; the file starts with a continuation-split keyword line carrying a trailing
+comment with quotes, an enum definition without blanks before `{`, a data line of the second table
+(lower-case name, CRLF) BEFORE any struct definition, a struct definition with a comment line inside,
+`<n>` brackets, a tab between type and name and a mixed-case name, interleaved rows with {braced} and
+"quoted" tokens and a continuation inside an array, a `char t[]` column, a blank line. -/
+
+def layDoc : Doc Int :=
+  { comments := [], hdr := [("mjd".toList, "54579".toList), ("alpha".toList, "beta \"gamma\"".toList)],
+    enums := [⟨"state".toList, "STATUS".toList, ["ON".toList, "OFF".toList]⟩],
+    tables := [
+      { name := "OBS".toList, cols := [⟨"mag".toList, .f4, 2⟩, ⟨"b".toList, .S 3, 0⟩, ⟨"state".toList, .S 5, 0⟩],
+        rows := [[.many [.flt .f4 17, .flt .f4 (-3)], .one (.str "a b".toList), .one (.str "ON".toList)],
+                 [.many [.flt .f4 1, .flt .f4 2], .one (.str "#x".toList), .one (.str "OFF".toList)]] },
+      { name := "OBSLOG".toList, cols := [⟨"n".toList, .i8, 0⟩, ⟨"t".toList, .S 3, 0⟩],
+        rows := [[.one (.int 5), .one (.str "x;y".toList)]] }] }
+
+def layLay : Layout :=
+  { finalEol := true,
+    slots := [
+      .filler "#%yanny".toList false,
+      .pair ⟨"  ".toList, ⟨" ".toList, some ([], false, "   ".toList)⟩, [], some " c \"q\" ".toList, false⟩,
+      .edef ⟨[], " ".toList, [], "\n  ".toList, ["\n  ".toList], "\n".toList, " ".toList, [], [], none, false⟩,
+      .row 1 ⟨[], "obslog".toList, [(⟨" ".toList, none⟩, .one .bare), (⟨"\t".toList, none⟩, .one .quoted)], " ".toList, none, true⟩,
+      .sdef ⟨" ".toList, "  ".toList, "\n".toList,
+        [⟨"\n  # magnitudes\n  ".toList, " ".toList, true, false, false⟩,
+         ⟨"\n ".toList, "\t".toList, false, true, false⟩,
+         ⟨" #c\n".toList, " ".toList, false, false, false⟩],
+        "\n".toList, " ".toList, "Obs".toList, " ".toList, " ".toList, some " def".toList, false⟩,
+      .row 0 ⟨"\t".toList, "obs".toList,
+        [(⟨" ".toList, none⟩, .many " ".toList .bare [(⟨" ".toList, some (" ".toList, true, "  ".toList)⟩, .quoted)] []),
+         (⟨"  ".toList, none⟩, .one (.braced " ".toList)), (⟨" ".toList, none⟩, .one .bare)], [], some " first".toList, false⟩,
+      .filler [] false,
+      .sdef ⟨[], " ".toList, " ".toList,
+        [⟨" ".toList, " ".toList, false, false, false⟩, ⟨"\n".toList, " ".toList, false, false, true⟩],
+        " ".toList, [], "OBSLOG".toList, [], [], none, false⟩,
+      .row 0 ⟨[], "OBS".toList,
+        [(⟨" ".toList, none⟩, .many [] .bare [(⟨" ".toList, none⟩, .bare)] " ".toList),
+         (⟨" ".toList, none⟩, .one .quoted), (⟨" ".toList, none⟩, .one .quoted)], [], none, false⟩,
+      .pair ⟨[], ⟨"\t".toList, none⟩, " ".toList, none, false⟩] }
+
+set_option maxRecDepth 1000000 in
+example : docOK2 layDoc = true := by decide
+set_option maxRecDepth 1000000 in
+example : layoutOK2 intIO layDoc layLay = true := by decide
+set_option maxRecDepth 1000000 in
+example : (renders intIO layDoc layLay).isSome = true := by decide
+
+set_option maxRecDepth 1000000 in
+/-- the theorem applies to the sample (document, layout) -/
+example : ∀ text, renders intIO layDoc layLay = some text → parseFile2 intIO text = .ok (canon layDoc) :=
+  fun text hr => parseFile_layout intIO (fun _ x => parseInt_fmtInt x) layDoc layLay text (by decide) (by decide) hr
 
 end PydlVerif.C02
